@@ -252,7 +252,7 @@ def runLifeCase (ts : List String) : String :=
   let cfgToks := secs.headD []
   let cfg : LifeCfg := cfgToks.foldl (fun c t =>
     if t == "plain" then { c with plain := true }
-    else if t == "tls" then { c with tls := true }
+    else if t == "tls" || t == "tlsfiles" then { c with tls := true }
     else if t.startsWith "cn=" then { c with cn := some (t.drop 3).toString }
     else if t.startsWith "pw=" then { c with pw := true }
     else c) {}
@@ -294,6 +294,8 @@ def handleLine (toks : List String) : String :=
   -- (`connStep_static`, `C08_per_connection`); blocking itself is runtime behaviour outside the model
   | "stallw" :: _ => "witness-served"
   | "massdisc" :: _ => "witness-served"
+  -- a crash is contained in its connection (`C07_panic_is_contained`, `C08_per_connection`)
+  | "panicw" :: _ => "witness-served"
   -- a reply is one write of one complete frame (`C04_every_write_is_a_frame`); how long the transport takes to
   -- deliver it is not the loop's business
   | "stallr" :: _ => "replies-complete"
